@@ -205,3 +205,17 @@ def C08(tier, seed):
              rule="MC: two 2x3 sketches, 4 items with colliding buckets, weights 0..2, all update/merge/halve/decay(1/2,2/3) sequences; "
                   "Trace: num_hashes 1..8 x num_buckets 3..512 x seeds {9001,0,2^63+..,42} x all eight counter types (weights within range), "
                   "random update/merge/halve/decay/round-trip histories, whole table and every item's estimate at checkpoints, never-seen items too")
+
+
+# --------------------------------------------------------------------------- Bloom
+def C09(tier, seed):
+    hll_like("C09", tier, seed, ["C09"], "bloom-record", [("MC_Bloom", "MC_Bloom.cfg")], None,
+             module="Trace_Bloom", family="Bloom", consts="CONSTANTS ",
+             assumptions=["bit positions are derived by harness/src/refhash.rs: ((h0 + i*h1) >> 1) mod capacity, h0 = XXH64(item, seed), h1 = XXH64(item, h0), i = 1..k",
+                          "the bit array is read from serialize() (32-byte preamble, little-endian 64-bit words)",
+                          "the measured false-positive rate of with_accuracy(n, p) (a statistical statement) is not decided; every contains() answer, "
+                          "false positives included, must equal the answer the specification's bit set gives"],
+             rule="MC: two 6-bit filters, 5 items (one a false positive of two others), all insert/union/intersect/invert/reset sequences; "
+                  "Trace: sizes {1,63,64,65,100,128,1000,1024,4096,4097,65536} bits x num_hashes {1,2,3,7,16} x seeds {9001,0,u64::MAX,..}, "
+                  "u64 and string items, random insert/contains_and_insert/contains/union/intersect/invert/reset/round-trip histories over two "
+                  "filters, bit array and bits_used after every step / checkpoint")
